@@ -82,6 +82,9 @@ def order(t, sym, shares, price=None):
     return dict(type=t, symbol=sym, shares=f2b(shares), price=None if price is None else f2b(price), via="json")
 
 
+REL_KINDS = ["eq", "ulp_up", "ulp_down", "ulps_up_8", "plus_1e-9", "plus_1e-7", "plus_1e-3", "times_1p1e-12", "half"]
+
+
 def gen_broker_scenario(rng, lazy=False, style=None, malformed=False, limit_orders=True):
     n = rng.choice([4, 6, 8, 12])
     style = style or rng.choice(["calm", "calm", "jumpy", "const"])
@@ -138,10 +141,18 @@ def gen_broker_scenario(rng, lazy=False, style=None, malformed=False, limit_orde
         elif r < 0.34:
             ops.append(dict(op="deposit", x=f2b(rng.choice([0.0, 50.0, 1000.0, -20.0 if malformed else 500.0]))))
         elif r < 0.42:
-            ops.append(dict(op="withdraw", x=f2b(rng.choice([10.0, 50.0, cash / 2, cash * 3, 0.0]))))
+            if rng.random() < 0.35:
+                # at the boundary of the current balance (computed by the harness from the broker's own cash): exactly
+                # the balance, a few ulps or a tiny amount either side of it
+                ops.append(dict(op="withdraw", x=0, rel=rng.choice(REL_KINDS)))
+            else:
+                ops.append(dict(op="withdraw", x=f2b(rng.choice([10.0, 50.0, cash / 2, cash * 3, 0.0]))))
         elif r < 0.52:
-            ops.append(dict(op="liq", x=f2b(rng.choice([10.0, 105.0, cash / 2, cash, cash * 1.5, cash * 4, 1e9,
-                                                        rng.uniform(0, 2 * cash)]))))
+            if rng.random() < 0.25:
+                ops.append(dict(op="liq", x=0, rel=rng.choice(REL_KINDS)))
+            else:
+                ops.append(dict(op="liq", x=f2b(rng.choice([10.0, 105.0, cash / 2, cash, cash * 1.5, cash * 4, 1e9,
+                                                            rng.uniform(0, 2 * cash)]))))
         elif r < 0.76:
             types = exch.UTYPES if limit_orders else ["MarketBuy", "MarketSell"]
             t = rng.choice(["MarketBuy", "MarketSell"] * 2 + types)
@@ -235,6 +246,8 @@ def broker_steps(sc, tr, idx):
         calls = r["calls"]
         o = op["op"]
         res = r.get("res")
+        if "rel" in op:
+            op["x"] = r["x_used"]       # the amount the harness derived from the broker's balance at that moment
         if o == "deposit":
             gop, gobs = gc("BDeposit", gf(op["x"])), (None if panic else gc("OCash", g_cash_event(res)))
         elif o == "withdraw":
